@@ -239,7 +239,12 @@ func runC12(c *Ctx, idx int, o *Obs) {
 		}
 		fs := tmpFile(c, "states.txt", sb.String())
 		al := acrAlgos[r.Intn(3)]
-		res := runCLI(c, "", "acr", "-i", ft, "--states", fs, "--algo", al.name, "--out-steps", "steps.txt")
+		inArgs, inStdin, inMode := presentTrees(c, r, "t-alt", []string{text}, plainNewick(text))
+		if inMode == "stdin" {
+			inArgs, inStdin = []string{"-i", ft}, "" // --states defaults to stdin as well: keep the tree in a file
+		}
+		o.Ev("cli_input:"+inMode, 1)
+		res := runCLI(c, inStdin, append(append([]string{"acr"}, inArgs...), "--states", fs, "--algo", al.name, "--out-steps", "steps.txt")...)
 		o.Ev("cli", 1)
 		if o.Check(res.Exit == 0 && !res.Panic, "cli_acr_failed", res.brief(), inp) {
 			stepsTxt := readTmp(c, "steps.txt")
@@ -468,10 +473,12 @@ func c12ASR(c *Ctx, r *rand.Rand, idx int, o *Obs, text string, tips []string) {
 		}
 	}
 	if idx%8 == 2 || idx%8 == 5 {
-		ft := tmpFile(c, "t.nw", text+"\n")
+		_ = tmpFile(c, "t.nw", text+"\n")
 		fa := tmpFile(c, "a.fa", fasta.String())
 		al := acrAlgos[r.Intn(3)]
-		res := runCLI(c, "", "asr", "-i", ft, "-a", fa, "--algo", al.name, "--log", "log.txt")
+		inArgs, inStdin, inMode := presentTrees(c, r, "t-alt", []string{text}, plainNewick(text))
+		o.Ev("cli_input:"+inMode, 1)
+		res := runCLI(c, inStdin, append(append([]string{"asr"}, inArgs...), "-a", fa, "--algo", al.name, "--log", "log.txt")...)
 		o.Ev("cli", 1)
 		if o.Check(res.Exit == 0 && !res.Panic, "cli_asr_failed", res.brief(), inp) {
 			logTxt := strings.Fields(strings.TrimSpace(readTmp(c, "log.txt")))
